@@ -88,6 +88,12 @@ func Keys[K comparable, V any](site string, m map[K]V) []K {
 					j, _ := strconv.Atoi(s)
 					out[i] = keys[j]
 				}
+				if p := os.Getenv("VERIF_SEAM_LOG"); p != "" {
+					if f, err := os.OpenFile(p, os.O_APPEND|os.O_CREATE|os.O_WRONLY, 0o644); err == nil {
+						fmt.Fprintf(f, "APPLIED %s\n", spec)
+						f.Close()
+					}
+				}
 				return out
 			}
 		}
@@ -224,7 +230,7 @@ func Build(goBin, repo string, env []string, modulePath string, pkgDirs []string
 				if rs.Key == nil {
 					return true // `for range m`: order is unobservable
 				}
-				site := fmt.Sprintf("%s:%d", filepath.Base(p), pos.Line)
+				site := fmt.Sprintf("%s#%d", filepath.Base(p), pos.Line)
 				key := exprText(srcs[p], fset, rs.Key)
 				tok := ":="
 				if rs.Tok == token.ASSIGN {
